@@ -11,7 +11,7 @@ import (
 
 func TestGeneratedUnitsParse(t *testing.T) {
 	rapid.Check(t, func(rt *rapid.T) {
-		p := GenProject(rt, Opts{Layout: true, Bodies: true, MultiByte: true, Interfaces: true, ExtraImps: true, Wide: true, Anon: true, NameReuse: rapid.Bool().Draw(rt, "reuse")})
+		p := GenProject(rt, Opts{Layout: true, Bodies: true, MultiByte: true, Interfaces: true, ExtraImps: true, Wide: true, Anon: true, RichDecl: true, NameReuse: rapid.Bool().Draw(rt, "reuse")})
 		for i, u := range p.Units {
 			text := p.Files[i].Text
 			if errs := SyntaxErrors(text); len(errs) > 0 {
